@@ -399,6 +399,7 @@ func endToEnd(meta *common.Meta, tier string, rng interface{ Intn(int) int }, ou
 	common.Must(os.MkdirAll(filepath.Join(base, "gp-unrelated"), 0o755))
 	layouts = append(layouts, layout{"cwd-path-inside-file-path", "", nestedCwd, filepath.Join(base, "gp-unrelated"), []string{nestedFile}})
 
+	env0 := append(common.GoEnv(), "GOPATH="+filepath.Join(base, "gp-unrelated"), "GOFLAGS=-mod=mod")
 	enable := "sloppyLen,emptyStringTest,unlambda"
 	enabledSet := map[string]bool{"sloppyLen": true, "emptyStringTest": true, "unlambda": true}
 	type flagset struct {
@@ -586,6 +587,7 @@ Definition cases : list ecase := [
 	common.WriteFile(filepath.Join(outDir, "cases_c16_e2e.v"), hdr+strings.Join(caseLines, ";\n")+"\n].\nDefinition M := Eval vm_compute in mismatches case_ok cases.\nPrint M.\n")
 	common.WriteFile(filepath.Join(outDir, "cases_c16_e2e.index.txt"), strings.Join(idxLines, "\n")+"\n")
 	meta.CaseFiles = append(meta.CaseFiles, "cases_c16_e2e.v")
+	runs += systemCases(meta, outDir, mod, env0)
 	meta.Distribution["end_to_end_runs"] = runs
 	return runs
 }
@@ -596,4 +598,138 @@ func goroot() string {
 		return ""
 	}
 	return strings.TrimSpace(out)
+}
+
+// systemCases ties the composed model (Model_System.system_run: selection + filters + printing + exit status
+// over the whole registry) to the binary: every registered checker's warnings are computed in-process once,
+// then the binary is run under selections given by names and tags.
+func systemCases(meta *common.Meta, outDir, mod string, env []string) int {
+	fset, pkgs, err := load.Packages(mod, env, "./...")
+	if err != nil {
+		meta.Notes = append(meta.Notes, "system cases: load failed: "+err.Error())
+		return 0
+	}
+	ctx := load.NewContext(fset)
+	cs, err := load.Checkers(ctx, nil) // all registered checkers
+	common.Must(err)
+	type fw struct {
+		full   string
+		groups []string
+		byC    map[string][][2]string
+	}
+	var files []*fw
+	byFull := map[string]*fw{}
+	for _, pkg := range pkgs {
+		for _, f := range pkg.Syntax {
+			full := fset.Position(f.Pos()).Filename
+			x := &fw{full: full, byC: map[string][][2]string{}}
+			for _, g := range f.Comments {
+				x.groups = append(x.groups, g.Text())
+			}
+			files = append(files, x)
+			byFull[full] = x
+		}
+		load.CheckPackage(ctx, cs, pkg, func(full string, c *linter.Checker, ws []linter.Warning) {
+			for _, w := range ws {
+				byFull[full].byC[c.Info.Name] = append(byFull[full].byC[c.Info.Name], [2]string{fset.Position(w.Pos).String(), w.Text})
+			}
+		})
+	}
+	var fitems []string
+	for _, x := range files {
+		var cws []string
+		var names []string
+		for n := range x.byC {
+			names = append(names, n)
+		}
+		sort.Strings(names)
+		for _, n := range names {
+			var ws []string
+			for _, w := range x.byC[n] {
+				ws = append(ws, fmt.Sprintf("(%s, %s)", coqfmt.Str(w[0]), coqfmt.Str(w[1])))
+			}
+			cws = append(cws, fmt.Sprintf("(%s, %s)", coqfmt.Str(n), coqfmt.List(ws)))
+		}
+		fitems = append(fitems, fmt.Sprintf("{| sf_name := %s; sf_groups := %s; sf_warn := %s |}", coqfmt.Str(filepath.Base(x.full)), coqfmt.StrList(x.groups), coqfmt.List(cws)))
+	}
+	type sel struct {
+		all     bool
+		enable  *string
+		disable *string
+		tests   bool
+		gen     bool
+		exit    int
+	}
+	sp := func(s string) *string { return &s }
+	sels := []sel{
+		{false, nil, nil, true, false, 1},
+		{true, nil, nil, true, true, 5},
+		{false, sp("#style"), sp("#experimental"), true, false, 1},
+		{false, sp("sloppyLen,captLocal,nosuch,#performance"), sp("hugeParam"), false, false, 2},
+		{true, nil, sp("#diagnostic,#style,#performance"), true, false, 1},
+		{false, sp("nosuchchecker"), nil, true, false, 1},
+		{false, sp("#diagnostic"), sp("#diagnostic"), true, true, 1},
+		{true, nil, sp("#experimental,#opinionated"), false, true, 0},
+	}
+	var lines, idx []string
+	runs := 0
+	for _, c := range sels {
+		args := []string{"check", "-shorterErrLocation=false", fmt.Sprintf("-checkTests=%v", c.tests), fmt.Sprintf("-checkGenerated=%v", c.gen), fmt.Sprintf("-exitCode=%d", c.exit)}
+		if c.all {
+			args = append(args, "-enableAll")
+		}
+		if c.enable != nil {
+			args = append(args, "-enable="+*c.enable)
+		}
+		if c.disable != nil {
+			args = append(args, "-disable="+*c.disable)
+		}
+		args = append(args, "./...")
+		for _, exe := range []string{"go-critic", "gocritic"} {
+			_, stderr, code, err := common.RunSplit(180*time.Second, mod, env, filepath.Join(common.BinDir(), exe), args...)
+			runs++
+			if err != nil {
+				meta.Fail("C16/"+exe+"/e2e-run", err.Error(), args)
+				continue
+			}
+			var got []string
+			fatal := ""
+			for _, l := range strings.Split(strings.TrimRight(stderr, "\n"), "\n") {
+				if strings.HasPrefix(l, "init checkers: ") {
+					fatal = "init checkers"
+				} else if l != "" {
+					got = append(got, l)
+				}
+			}
+			sort.Strings(got)
+			obs := fmt.Sprintf("SysExit %s %s", coqfmt.Z(int64(code)), coqfmt.StrList(got))
+			if fatal != "" {
+				obs = "SysFatal " + coqfmt.Str(fatal)
+			}
+			lines = append(lines, fmt.Sprintf("  ({| cf_all := %s; cf_enable := %s; cf_disable := %s |}, {| check_tests := %s; check_generated := %s; exit_code := %s |}, %s)",
+				coqfmt.Bool(c.all), coqfmt.OptStr(c.enable), coqfmt.OptStr(c.disable), coqfmt.Bool(c.tests), coqfmt.Bool(c.gen), coqfmt.Z(int64(c.exit)), obs))
+			idx = append(idx, fmt.Sprintf("%s %v -> exit %d, %d lines %s", exe, args, code, len(got), fatal))
+		}
+	}
+	src := `From GC Require Import Base Model_Select Model_Cli Model_System.
+From GCgen Require Import Registry.
+Fixpoint ins (x : string) (l : list string) : list string :=
+  match l with [] => [x] | y :: r => if String.leb x y then x :: l else y :: ins x r end.
+Definition sort_s (l : list string) : list string := fold_right ins [] l.
+Definition files : list sys_file := ` + coqfmt.List(fitems) + `.
+Definition out_eqb (a b : sys_outcome) : bool :=
+  match a, b with
+  | SysFatal x, SysFatal y => String.eqb x y
+  | SysExit c1 l1, SysExit c2 l2 => Z.eqb c1 c2 && list_eqb String.eqb (sort_s l1) (sort_s l2)
+  | _, _ => false
+  end.
+Definition case_ok (k : cli_flags * cli_cfg * sys_outcome) : bool :=
+  let '(fl, cfg, o) := k in out_eqb (system_run registry fl cfg files) o.
+Definition cases : list (cli_flags * cli_cfg * sys_outcome) := [
+` + strings.Join(lines, ";\n") + "\n].\nDefinition M := Eval vm_compute in mismatches case_ok cases.\nPrint M.\n"
+	common.WriteFile(filepath.Join(outDir, "cases_c16_system.v"), src)
+	common.WriteFile(filepath.Join(outDir, "cases_c16_system.index.txt"), strings.Join(idx, "\n")+"\n")
+	meta.CaseFiles = append(meta.CaseFiles, "cases_c16_system.v")
+	meta.Distribution["system_cases"] = len(lines)
+	return runs
 }
